@@ -524,6 +524,9 @@ func runFedStop(events int) []string {
 }
 
 func exec(kind string, in []string) []string {
+	if kind == "wsbad" {
+		return runWSBad(vh.AtoI(in[0]), vh.AtoI(in[1]))
+	}
 	if kind == "wslong" {
 		return runWSLong(in[0], vh.AtoI(in[1]), vh.AtoI(in[2]))
 	}
